@@ -369,6 +369,8 @@ def register(reg, stubs, world):
         R = z3.Select(st.H('rules'), V.ref(s))
         return [('enforcer-owns-a-rule-store', z3.And(V.is_obj(s), V.is_obj(R), clsof(V.ref(R)) == eng.cid('Rules'),
                                                      V.is_dict(z3.Select(st.H('$val'), V.ref(R))))),
+                # ghost footprint: in the loader's view fp marks check nodes and their operand lists only
+                ('enforcer-and-rule-store-are-not-part-of-a-check-tree', z3.And(z3.Not(fp(V.ref(s))), z3.Not(fp(V.ref(R))))),
                 ('a-dict-object-holds-a-mapping', z3.Implies(z3.And(V.is_obj(r), eng.isinst_ref(V.ref(r), 'dict')),
                                                              V.is_dict(z3.Select(st.H('$val'), V.ref(r))))),
                 ('flags-are-booleans', z3.And(V.is_bool(cx['overwrite']), V.is_bool(cx['use_conf'])))]
@@ -386,11 +388,12 @@ def register(reg, stubs, world):
         return [('only-for-a-dict', isd),
                 ('records-the-flags', z3.And(eng.get(s1, s, 'use_conf') == cx['use_conf'], eng.get(s1, s, '_need_check_rule') == TRUE)),
                 ('overwrite-publishes-a-fresh-complete-store', z3.Implies(truthy(ow), z3.And(
-                    V.is_obj(R1), clsof(V.ref(R1)) == eng.cid('Rules'), V.ref(R1) >= st.ap,
+                    V.is_obj(R1), clsof(V.ref(R1)) == eng.cid('Rules'), V.ref(R1) >= st.ap, V.ref(R1) < s1.ap,
+                    V.is_dict(eng.val(s1, R1)),
                     qforall([k], z3.Select(newm, k) == z3.Select(src, k)),
                     eng.get(s1, R1, 'default_rule') == eng.get(st, s, 'default_rule')))),
                 ('update-keeps-the-store-and-lets-new-entries-win', z3.Implies(z3.Not(truthy(ow)), z3.And(
-                    R1 == R0,
+                    R1 == R0, V.is_dict(eng.val(s1, R1)),
                     qforall([k], z3.Select(newm, k) == z3.If(z3.Select(src, k) != ABSENT, z3.Select(src, k),
                                                              z3.Select(V.m(eng.val(st, R0)), k))))))]
 
@@ -409,6 +412,7 @@ def register(reg, stubs, world):
                         patterns=[z3.Select(new, r)])]
     reg.add(Contract('policy:Enforcer.set_rules', pre=setr_pre, post=setr_post, raises=('TypeError',), frame=setr_frame,
                      modifies=('rules', 'use_conf', '_need_check_rule', '$val'), allocates=True, publishes=setr_pub,
+                     preserves=('wf_tree', 'tree_height', 'pr'),
                      props=('C09', 'C20'),
                      doc='overwrite mode replaces the shared rule store by ONE assignment of a finished Rules object '
                          '(publication obligation: no in-place write to a store other threads can read)'))
